@@ -4,6 +4,7 @@ from __future__ import annotations
 from flamapy.metamodels.fm_metamodel.operations import FMCoreFeatures
 
 from .. import engine, sem
+from .. import shadow as sh
 from ..engine import Fail
 from . import common as cm
 from . import opscfg
@@ -28,10 +29,18 @@ def judge(res, model):
         out.append(Fail('duplicates', names))
     if model[0][0] not in names:
         out.append(Fail('root-missing', names))
+    if sh.size(model) > 16:
+        always = sem.core_structural(model)
+        if set(names) != set(always):
+            out.append(Fail('core-missing' if always - set(names) else 'not-always-selected',
+                            {'returned': len(names), 'expected': len(always), 'example': sorted(always ^ set(names))[:4]}))
+        return out
     tcs = sem.tree_configs_cached(model)
     cfgs = [s for s in tcs if all(sem.ev(t, s) for _n, t in model[1])]
     if cfgs:
         always = frozenset.intersection(*cfgs)
+        if not model[1] and always != sem.core_structural(model):
+            raise AssertionError('reference core computations disagree on %r' % (model,))
         extra = [n for n in names if n not in always]
         if extra:
             out.append(Fail('not-always-selected', {'returned': names, 'not_core': extra}))
@@ -43,7 +52,7 @@ def judge(res, model):
 
 
 def check(case):
-    model = case[1]
+    model = opscfg.resolve(case)
     if case[0] == 'SE':
         return opscfg.edit_history(model, FMCoreFeatures, judge)
     fm, fails = cm.built(model)
@@ -59,5 +68,9 @@ def check(case):
 
 
 def outcome(case):
+    if case[0] == 'B':
+        return 'big'
+    if sh.size(case[1]) > 16:
+        return 'big'
     tcs = sem.tree_configs_cached(case[1])
     return 'core=%d' % len(frozenset.intersection(*tcs)) if tcs else 'void'
